@@ -8,43 +8,7 @@ import ChibiVerif.Lemmas.C01MemLemmas
 namespace ChibiVerif.C01
 open ChibiVerif.X86 ChibiVerif.Asm ChibiVerif.Spec.IntSpec ChibiVerif.Gen.CommonType ChibiVerif.C01Codegen
 
-/-- node kind and operand order of a C11 binary operator (`a > b` is `b < a`) -/
-def nodeOf : BinOp → NK × Bool
-  | .add => (.ND_ADD, false) | .sub => (.ND_SUB, false) | .mul => (.ND_MUL, false) | .div => (.ND_DIV, false)
-  | .mod => (.ND_MOD, false) | .band => (.ND_BITAND, false) | .bor => (.ND_BITOR, false) | .bxor => (.ND_BITXOR, false)
-  | .shl => (.ND_SHL, false) | .shr => (.ND_SHR, false)
-  | .eq => (.ND_EQ, false) | .ne => (.ND_NE, false) | .lt => (.ND_LT, false) | .le => (.ND_LE, false)
-  | .gt => (.ND_LT, true) | .ge => (.ND_LE, true)
-
-/-- `gen_expr` on the typed tree `add_type` builds for a pure expression over variables at `off i (%rbp)` -/
-def compileE (tys : List ITy) (off : Nat → Int) : E → Option (ITy × List Ins)
-  | .lit t v => some (t, [⟨"mov", [.i v, .r "%rax"]⟩])
-  | .var i => (tys[i]?).map fun t => (t, ⟨"lea", [.m (off i) "%rbp", .r "%rax"]⟩ :: loadSeq t)
-  | .cast t e => (compileE tys off e).map fun (te, c) => (t, c ++ castSeq te t)
-  | .un op e =>
-      (compileE tys off e).map fun (te, c) =>
-        match op with
-        | .plus => (promote te, c ++ castSeq te (promote te))
-        | .lognot => (.i32, c ++ unSeq .ND_NOT te)
-        | .neg => (promote te, c ++ castSeq te (promote te) ++ unSeq .ND_NEG (promote te))
-        | .bitnot => (promote te, c ++ castSeq te (promote te) ++ unSeq .ND_BITNOT (promote te))
-  | .bin op a b =>
-      match compileE tys off a, compileE tys off b with
-      | some (ta, ca), some (tb, cb) =>
-        let (k, swap) := nodeOf op
-        let (tl, cl, tr, cr) := if swap then (tb, cb, ta, ca) else (ta, ca, tb, cb)
-        let t := binopOperandType op tl tr
-        let rhs := if op.isShift then cr else cr ++ castSeq tr t
-        some (binopType op ta tb,
-              rhs ++ [⟨"push", [.r "%rax"]⟩] ++ cl ++ castSeq tl t ++ [⟨"pop", [.r "%rdi"]⟩] ++ opSeq k t)
-      | _, _ => none
-  | _ => none
-
-/-- stack slots `compileE` needs below `%rsp` -/
-def depthE : E → Nat
-  | .cast _ e | .un _ e => depthE e
-  | .bin _ a b => max (depthE a) (depthE b + 1) + 1
-  | _ => 0
+-- `nodeOf`, `compileE`, `depthE` are defined in Model/C01Expr.lean (core only: the driver runs them)
 
 /-- the frame holds the store: variable `i` of type `tys[i]` lives at `off i (%rbp)` with value `vals[i]`, and the frame
     lies above the `n` free stack slots below `%rsp` (no address wrap-around) -/
